@@ -7,7 +7,8 @@ run() {
   if ! git -C /repo apply --check $t/patch.diff 2>/dev/null; then echo "$id STALE (patch no longer applies to /repo HEAD)"; rm -rf $t; return; fi
   props=$(python3 -c "import json,sys; m=json.load(open('$d/meta.json')); print(' '.join(list(m.get('checks',{}).keys()) or ['$prop']))" 2>/dev/null || echo $prop)
   out=$(tools/seedtest.py $t $props 2>/dev/null)
-  echo "$id $(echo "$out" | python3 -c "import json,sys; s=sys.stdin.read(); r=json.loads(s[s.index('{'):]); print('confirmed', r.get('existing_tests_pass_with_change'), r.get('demo_fails_with_change'), r.get('demo_passes_without_change'), 'detected_by', r['detected_by'], [ ('nfi' if any('no-failing' in l for l in v['lines']) else 'concrete') for v in r['checks'].values() if v['lines']])" 2>&1 | tail -1)"
+  nc=$(python3 -c "import json; print('NEGATIVE-CONTROL ' if json.load(open('$d/meta.json')).get('negative_control') else '')" 2>/dev/null)
+  echo "$id $nc$(echo "$out" | python3 -c "import json,sys; s=sys.stdin.read(); r=json.loads(s[s.index('{'):]); print('confirmed', r.get('existing_tests_pass_with_change'), r.get('demo_fails_with_change'), r.get('demo_passes_without_change'), 'detected_by', r['detected_by'], [ ('nfi' if any('no-failing' in l for l in v['lines']) else 'concrete') for v in r['checks'].values() if v['lines']])" 2>&1 | tail -1)"
   rm -rf $t
 }
 export -f run
